@@ -127,6 +127,40 @@ pub fn jobs(tier: Tier) -> Vec<Job> {
         let run = RunCfg::parallel(2);
         v.push(pipeline_job("c05-live", c, &run, FINE, if tier == Tier::Quick { 2 } else { 3 }, true));
     }
+    // a custom precompile panics inside a worker (or on the sequential path): the original panic
+    // must reach the caller
+    {
+        use super::pc::*;
+        let mut db = MemDb::default();
+        blocks::rich(&mut db, 3);
+        let txs = vec![
+            ("transfer(e0->e1)".to_string(), transfer(eoa(0), 0, eoa(1), 1)),
+            ("pc.panic(e1)".to_string(), call(eoa(1), 0, pc_addr(PC_PANIC), &[word(0)])),
+            ("transfer(e2->e0)".to_string(), transfer(eoa(2), 0, eoa(0), 1)),
+        ];
+        let mut case = Case::new("precompile-panic", spec, db, txs);
+        case.precompiles = Some(all());
+        for run in [RunCfg::parallel(1), RunCfg::parallel(2), RunCfg::parallel(3), RunCfg::sequential()] {
+            let (g, b) = if tier == Tier::Quick { (FINE, 1) } else { (FINE, 2) };
+            let mut job = pipeline_job("c05-pc-panic", &case, &run, g, if run.force_sequential { 0 } else { b }, false);
+            job.judge = Arc::new(|res: &ExecResult| {
+                let obs = res.obs.as_ref().expect("observation");
+                match &obs.panic {
+                    Some(p) if p == PC_PANIC_MSG => Judgement::Ok,
+                    other => Judgement::Violation {
+                        key: "panic-not-propagated".into(),
+                        detail: format!("a precompile panicked in transaction 1; the caller observed panic {other:?}, error {:?}", obs.error),
+                    },
+                }
+            });
+            v.push(job);
+            if !run.force_sequential && tier == Tier::Quick {
+                let mut j2 = pipeline_job("c05-pc-panic", &case, &run, COARSE, 2, false);
+                j2.judge = v.last().unwrap().judge.clone();
+                v.push(j2);
+            }
+        }
+    }
     // database panic at the j-th database call, for every j the block can reach
     let pc = blocks::nonce_chain(spec, 2);
     let fc = blocks::incr_same_slot(spec, 2);
